@@ -14,13 +14,15 @@ func init() {
 	register(&Check{
 		ID:  "C06",
 		Run: runC06,
-		Explanation: "Decides the protocol shape of the four sibling transactional publishers (font.commitCollectionFonts, api.commitStagedFontsWithOperations, api.publishCheatSheets, api.publishCertificateImports + backupCertificateDestinations): (R1 rollback on every failure) every error return that can follow a mutating step of the transaction (a rename through the operation table, the certificate backup step) and is not in the post-publication tail (after the publishing loop has finished) returns an error value computed from a call that reaches the publisher's rollback sibling (directly or through the local rollback closure); (R2 bookkeeping) on the success edge of every rename in a publisher the record flag (hadOriginal / committed / published) is stored true before any other call, return or loop iteration can happen, so that a later rollback knows about the step — a flag set after the following directory sync, as in a reordering refactor, is rejected; the rollback siblings read exactly those flags and walk the records in reverse; (R3) staging directories created with mkdirTemp/createStagingDir/createInputDir are removed on every path (deferred or on each failure return) unless ownership is returned; (R4) every rollback sibling mentions the backup location (backupDir / backupFile) in the error it returns when restoring failed; (R5) api.installFonts calls commit.rollback() on the failure branch after a successful commit (reload failure). (R6) the existence probe of the transactions (the op-table field lstat that decides whether a target is backed up before it is replaced) is bound to os.Lstat in every production table: os.Stat reports a dangling symlink as absent, the entry is overwritten without a backup and a rollback cannot restore it; (R7) every name appended to the list handed to publishCheatSheets passed a duplicate test-and-set on a map that outlives the appending loops (no bulk append): a name listed twice is backed up twice under the same name, which destroys the original. NOT decided: that rollback restores exactly the previous bytes, behaviour under double faults, and the per-font gob writer (C07).",
+		Explanation: "Decides the protocol shape of the four sibling transactional publishers (font.commitCollectionFonts, api.commitStagedFontsWithOperations, api.publishCheatSheets, api.publishCertificateImports + backupCertificateDestinations): (R1 rollback on every failure) every error return that can follow a mutating step of the transaction (a rename through the operation table, the certificate backup step) and is not in the post-publication tail (after the publishing loop has finished) returns an error value computed from a call that reaches the publisher's rollback sibling (directly or through the local rollback closure); (R2 bookkeeping) on the success edge of every rename in a publisher the record flag (hadOriginal / committed / published) is stored true before any other call, return or loop iteration can happen, so that a later rollback knows about the step — a flag set after the following directory sync, as in a reordering refactor, is rejected; the rollback siblings read exactly those flags and walk the records in reverse; (R3) staging directories created with mkdirTemp/createStagingDir/createInputDir are removed on every path (deferred or on each failure return) unless ownership is returned; (R4) every rollback sibling mentions the backup location (backupDir / backupFile) in the error it returns when restoring failed; (R5) api.installFonts calls commit.rollback() on the failure branch after a successful commit (reload failure). (R6) the existence probe of the transactions (the op-table field lstat that decides whether a target is backed up before it is replaced) is bound to os.Lstat in every production table: os.Stat reports a dangling symlink as absent, the entry is overwritten without a backup and a rollback cannot restore it; (R7) every name appended to the list handed to publishCheatSheets passed a duplicate test-and-set on a map that outlives the appending loops (no bulk append): a name listed twice is backed up twice under the same name, which destroys the original. (R8) in the single-font gob writer the rename that publishes a representation is reached only after it was read back (ops.verify) and compared equal (ttfEqual) on every path since the last encode. (R9) stageCertificateImports: every return reachable after a staging file was created hands the accumulated list back (the value a deferred cleanup reading the named result sees is the one stored last before the return) or has passed cleanupCertificateImports on it. NOT decided: that rollback restores exactly the previous bytes, behaviour under double faults, and the per-font gob writer (C07).",
 		Rules: []string{
 			"C06.R1 MPT/flow: failure after a mutating step returns through the rollback sibling",
 			"C06.R2 typestate: record flag stored on the rename's success edge before anything else; rollback reads the flags",
 			"C06.R3 PAIR: staging directories removed on all paths",
 			"C06.R4 flow: backup location reported when restore fails",
 			"C06.R5 MPT: caller honours the rollback handle",
+			"C06.R9 flow: certificate staging files created so far are cleaned up or handed back on every failure return",
+			"C06.R8 MPT: a font representation is read back and compared before the rename that publishes it",
 		},
 		Assumptions: []string{"operation tables are replaced only in tests", "rename/remove semantics of the OS"},
 		Technique:   "sibling cross-check of four publishers: may-reach analysis of mutating calls, error-value dependency slicing to the rollback call, success-edge typestate for record flags, acquire/dispose typestate for staging directories",
@@ -47,6 +49,28 @@ var c06Publishers = []txPublisher{
 
 func runC06(c *Ctx) {
 	r := c.R
+	// ---- R8 (round 3 of seeding): a font representation is verified before it is published
+	r.MinInst["C06.R8"] = 2
+	for _, fn := range funcsCalling(c.P, gobOps+"rename") {
+		runFlowRuleOn(c, FlowRule{
+			ID: "C06.R8",
+			Gen: []GenSpec{
+				{Fact: "verified", On: Pred{Calls: []string{gobOps + "verify"}}},
+				{Fact: "same", On: Pred{Calls: []string{"pkg/font.ttfEqual"}}, OnTrue: true},
+			},
+			Kill: []KillSpec{{Fact: "verified", On: Pred{Calls: []string{gobOps + "encode"}}}, {Fact: "same", On: Pred{Calls: []string{gobOps + "encode"}}}},
+			Need: []NeedSpec{
+				{Fact: "verified", At: Pred{Calls: []string{gobOps + "rename"}}, Why: "the new font representation is renamed over the installed one before it was read back: a representation the loader rejects replaces a working font, and nothing restores it"},
+				{Fact: "same", At: Pred{Calls: []string{gobOps + "rename"}}, Why: "the new font representation is renamed over the installed one before it was compared with what was meant to be written"},
+			},
+			Min: 2,
+		}, fn)
+	}
+	// ---- R9 (round 3 of seeding): staging files created so far are cleaned up or handed back on every failure
+	r.MinInst["C06.R9"] = 3
+	checkAccumulators(c, "C06.R9",
+		map[string]string{"pkg/api.stageCertificateImports": "pkg/api.createCertificateTransactionFile"},
+		map[string]string{"pkg/api.stageCertificateImports": "pkg/api.cleanupCertificateImports"})
 	r.MinInst["C06.R1"] = 15
 	r.MinInst["C06.R2"] = 8
 	r.MinInst["C06.R3"] = 4
